@@ -302,14 +302,15 @@ def check_hw_case(ctx, c, world_base, k):
 
 def part_misc(ctx):
     from streamflow.deployment.connector import container as conn_mod
-    r = ctx.tlc("ContainerBinds", "MC_ContainerBindsMisc", "MC_ContainerBindsMisc.cfg", workers=1, timeout=1800)
+    r = ctx.tlc("ContainerBinds", "MC_ContainerBindsMisc", ctx.pick("MC_ContainerBindsMisc.cfg", "MC_ContainerBindsMisc_thorough.cfg"),
+                workers=1, timeout=1800)
     ctx.require(r.ok, "parser / effective-location cases: %s %s" % (r.error, r.violated))
     lines = r.printed_json()
     ctx.require(len(lines) == r.distinct, "cases printed %d, states %d" % (len(lines), r.distinct))
     by = {}
     for c in lines:
         by.setdefault(c["mode"], []).append(c)
-    ctx.require(len(by.get("bind", [])) >= 10 and len(by.get("mount", [])) > 3000 and len(by.get("eff", [])) > 5000
+    ctx.require(len(by.get("bind", [])) >= 10 and len(by.get("mount", [])) > 3000 and len(by.get("eff", [])) > 3000
                 and len(by.get("hw", [])) == 96, "case counts %s" % {k: len(v) for k, v in by.items()})
     for c in by["bind"]:
         ctx.case(("parse", "bind", json.dumps(c["fields"])))
@@ -324,7 +325,7 @@ def part_misc(ctx):
     ctx.sample({"mount_text": ",".join(("%s=%s" % (i["k"], i["v"])) if i["kv"] else i["k"] for i in mid["items"]), "spec": mid["exp"]})
     eff = sorted(by["eff"], key=lambda c: json.dumps(c, sort_keys=True))
     if ctx.quick:
-        eff = ctx.rng("eff").sample(eff, 1500)
+        eff = ctx.rng("eff").sample(eff, 900)
     cls = {}
     for c in eff:
         k = eff_class(c)
@@ -342,7 +343,7 @@ def part_misc(ctx):
         for c in hw:
             h = c["hw"]
             keep.setdefault((h["v"], h["quota"] != 0, h["period"], h["mem"] != 0 if h["quota"] == 50000 else None), c)
-        hw = list(keep.values())[:8]
+        hw = list(keep.values())[:6]
     for k, c in enumerate(hw):
         ctx.case(("hw", json.dumps(c["hw"], sort_keys=True)))
         check_hw_case(ctx, c, ctx.scratch("worlds"), k)
@@ -603,7 +604,7 @@ def part_model_and_copies(ctx):
                     chosen.append((st, rng.choice(ls)))
                 else:
                     rest.append((st, ls))
-            for st, ls in rest[:max(0, 10 - len(chosen))]:
+            for st, ls in rest[:max(0, 6 - len(chosen))]:
                 chosen.append((st, rng.choice(ls)))
         else:
             for st, ls in sorted(by.items(), key=lambda kv: json.dumps(kv[0])):
@@ -734,7 +735,11 @@ def replay_behaviour(ctx, name, scen, beh):
                     if good:
                         loc = o["locs"][rig.cid]
                         mounts = sorted([rig.world.abstract(k), rig.world.abstract(v)] for k, v in loc.location.mounts.items())
+                        want_mp = {"/", "/etc/resolv.conf", "/etc/hostname", "/etc/hosts"} | {
+                            rig.world.real(m["dst"]) for m in T if m["type"] != "tmpfs"}
+                        storage = loc.hardware.storage
                         good = (mounts == sorted([list(b[0]), list(b[1])] for b in last["binds"]) and loc.stacked
+                                and set(storage) == want_mp and all(st.size == 1024.0 for st in storage.values())
                                 and loc.wraps is not None and loc.wraps.location.local and loc.hardware.cores == 4.0
                                 and loc.hardware.memory == 4096.0 and loc.location.hostname == "172.17.0.2")
                     trace.append({"e": "locations", "ok": bool(good)})
